@@ -1292,3 +1292,85 @@ def gen_move_elementwise(L, K, rng):
     if rng.random() < 0.5:
         g.op_emplace(0)
     return g.finish(), g.stats
+
+
+def gen_moved_from(L, K, rng):
+    """a vector emptied by move construction or by a stealing move assignment (equal
+    allocators), then used as any other vector: observed, assigned to (element-wise move from
+    an unequal allocator with a smaller / larger block, stealing move, copy), cleared,
+    copied from, and filled again"""
+    g = ScriptGen(L, K, rng)
+    fixed = [rng.choice([0, 1, 2, 3]) for _ in range(nfixed(L))]
+    g.op_mkvec(1, cap=rng.choice([1, 2, 3, 4]), fixed=fixed, aid=1)
+    for _ in range(rng.randrange(0, 4)):
+        g.op_emplace(1)
+    sv = g.slots[1]
+    how = rng.choice(["movector", "steal-assign", "steal-assign"])
+    if how == "movector":
+        g.slots[0] = sv.clone()
+        g.lines.append("movector 0 1")
+    else:
+        g.op_mkvec(0, cap=rng.choice([0, 1, 2, 3]), fixed=fixed, aid=1)
+        if rng.random() < 0.5:
+            g.op_emplace(0)
+        g.slots[0] = sv.clone()
+        g.lines.append("moveassign 0 1")
+    m = SpecVec(L, 0, 0, [0] * nfixed(L), sv.aid, K)
+    m.null = True
+    m.block = 0
+    g.slots[1] = m
+    g.stat("moved-from-by-" + how)
+    g.lines.append("observe 1")
+    # (copying FROM or reserving a moved-from vector is not among the operations C09 grants a
+    # moved-from vector - "destroyed, cleared, assigned to and swapped"; with a VaryingSize
+    # list it reads through the stale end pointer the moved-from locator keeps: DESIGN 12.12)
+    act = rng.choice(["move-other-aid", "move-other-aid", "move-same-aid", "copyassign", "clear", "swap", "eraserange"])
+    g.stat("moved-from-then-" + act)
+    if act in ("move-other-aid", "move-same-aid", "copyassign"):
+        aid2 = 2 if act == "move-other-aid" else rng.choice([1, 2])
+        fixed2 = fixed if rng.random() < 0.7 else [rng.choice([0, 1, 2, 3]) for _ in range(nfixed(L))]
+        g.op_mkvec(2, cap=rng.choice([1, 1, 2, 3, 6]), fixed=fixed2, aid=aid2)
+        for _ in range(rng.randrange(0, 4)):
+            g.op_emplace(2)
+        dv, s2 = g.slots[1], g.slots[2]
+        if act == "copyassign":
+            v = s2.clone()
+            v.aid = s2.aid if K[0] else dv.aid
+            v.null = False
+            g.slots[1] = v
+            g.lines.append("copyassign 1 2")
+        elif K[3] or K[1] or dv.aid == s2.aid:
+            v = s2.clone()
+            v.aid = s2.aid if K[1] else dv.aid
+            g.slots[1] = v
+            m2 = SpecVec(L, 0, 0, [0] * nfixed(L), s2.aid, K)
+            m2.null = True
+            m2.block = 0
+            g.slots[2] = m2
+            g.lines.append("moveassign 1 2")
+        else:
+            v = s2.clone()
+            v.aid = dv.aid
+            v.null = False            # a moved-from target owns nothing: a block of the source's size is allocated
+            g.slots[1] = v
+            g.lines.append("moveassign 1 2")
+            if not all_triv(L):
+                # the source keeps moved-from objects: only destroyed afterwards
+                pass
+        g.lines.append("observe 1")
+    elif act == "clear":
+        g.lines.append("clear 1")
+    elif act == "eraserange":
+        g.lines.append("eraserange 1 0 0")
+    else:
+        # swap with the vector that took its contents (allocators equal: always allowed)
+        x, y = g.slots[0], g.slots[1]
+        g.slots[0], g.slots[1] = y.clone(), x.clone()
+        g.lines.append("swap 0 1")
+    # ... and it can be filled like any other vector
+    v = g.slots[1]
+    if v is not None and not v.null and rng.random() < 0.7:
+        if not g.op_emplace(1):
+            g.op_reserve(1, True)
+            g.op_emplace(1)
+    return g.finish(), g.stats
